@@ -893,6 +893,9 @@ class Interp:
 
     # -- attribute access --------------------------------------------------
     def getattr(self, obj, name):
+        if type(obj).__name__ == "DType" and name == "kind":
+            # numpy's one-letter kind code (the stub's own `kind` field is the executor's value kind)
+            return {"real": "f", "int": "i", "bool": "b", "complex": "c", "object": "O"}.get(obj.kind, "f")
         if getattr(obj, "_pyvc_native", False):
             try:
                 return getattr(obj, name)
@@ -929,6 +932,23 @@ class Interp:
                 r = h(self, obj, name)
                 if r is not NotImplemented:
                     return r
+            if isinstance(cls, RepoClass):
+                # an object a contract built attribute by attribute (not through __init__): an attribute that every
+                # __init__ of the class hierarchy sets to a literal constant has that value
+                for c in cls.mro(self):
+                    init = c.methods.get("__init__") if isinstance(c, RepoClass) else None
+                    if init is None:
+                        continue
+                    for node in ast.walk(init.node):
+                        tgt = None
+                        if isinstance(node, ast.Assign) and len(node.targets) == 1:
+                            tgt, val = node.targets[0], node.value
+                        elif isinstance(node, ast.AnnAssign) and node.value is not None:
+                            tgt, val = node.target, node.value
+                        if (isinstance(tgt, ast.Attribute) and isinstance(tgt.value, ast.Name) and tgt.value.id == "self"
+                                and tgt.attr == name and isinstance(val, ast.Constant)):
+                            obj.attrs[name] = val.value
+                            return val.value
             raise PyRaise(self.make_exc("AttributeError", f"{obj!r} has no attribute {name}"))
         if isinstance(obj, SuperProxy):
             mro = obj.obj.cls.mro(self)
